@@ -184,16 +184,26 @@ def twin_params(w, spec):
 def register_model(w, st, mid, mtype, obj, spec, from_bufs=()):
     m = {"type": mtype, "obj": obj, "spec": spec, "snap": snapshot(obj), "law": None, "p": getattr(obj, "p", None),
          "bufs": list(from_bufs), "born": w.step, "ncalls": 0, "fmask": 0, "iv": False}
-    if mtype == "lganm":
-        m["law"] = obs_law(w, obj)
+    m["law"] = obs_law(w, obj, mtype)
     st.models[mid] = m
     if id(obj) in st.dropped_ids:
         w.probes["gc.model_id_reused"] += 1
     return m
 
 
-def obs_law(w, obj):
-    out = w.call(lambda: obj.sample(population=True))
+def obs_law(w, obj, mtype="lganm"):
+    """The observational distribution as the API shows it with all-default arguments: the population
+    law for an LGANM; for ANM and NormalDistribution a small observational sample under a fixed
+    seed (numpy's global generator is saved and restored around it, so the probe leaves no trace
+    in the world's random stream)."""
+    if mtype == "lganm":
+        out = w.call(lambda: obj.sample(population=True))
+        return plain(out[1])
+    state = np.random.get_state()
+    try:
+        out = w.call(lambda: obj.sample(3, random_state=20231))
+    finally:
+        np.random.set_state(state)
     return plain(out[1])
 
 
@@ -626,8 +636,9 @@ def check_models(w, st, site, failed=False, after_scribble=False):
             w.violate("model_changed_after_failed_call" if failed else "attr_changed", s,
                       {"model": mid, "type": m["type"], "attrs": changed, "model_age_calls": m["ncalls"]})
         if m["law"] is not None:
-            law = obs_law(w, obj)
+            law = obs_law(w, obj, m["type"])
             w.probes["obs_law.checked"] += 1
+            w.probes["obs_law.checked:" + m["type"]] += 1
             if not equalish(law, m["law"]):
                 if not changed:
                     w.violate("model_changed_after_failed_call" if failed else "obs_law_changed", s,
